@@ -108,316 +108,101 @@ def run(ctx):
     ctx.rule("R-NO-SHARED-STATE", "forwarder methods write only instance attributes")
     ctx.rule("R-MERGE-PURE", "_merge_tags builds new sets and mutates neither argument")
 
-    # -- slots filled from the repository -----------------------------------------
+    # -- lock discipline and block shape, on abstract runs (rules/tfrmodel.py) ---------------------------
+    from . import tfrmodel as tm
+    from .. import effects
+    from ..absint import NONE as A_NONE
+    methods = dict(tfr.methods)
     init = tfr.own_method("__init__")
     if init is None:
         raise AnalysisError("anchor vanished: ThreadsafeForwardingResult.__init__")
-    pnames = [a.arg for a in init.args.args[1:]]
-    if len(pnames) < 2:
-        raise AnalysisError("ThreadsafeForwardingResult.__init__ no longer takes (target, semaphore)")
-    target_param, sem_param = pnames[0], pnames[1]
-    target_attr = sem_attr = None
-    for n in walk_shallow(init, include_self=False):
-        if isinstance(n, ast.Assign) and len(n.targets) == 1:
-            ch = attr_chain(n.targets[0])
-            if ch and ch[0] == "self" and len(ch) == 2:
-                names = {x.id for x in ast.walk(n.value) if isinstance(x, ast.Name)}
-                if target_param in names:
-                    target_attr = ch[1]
-                if sem_param in names:
-                    sem_attr = ch[1]
-    if not target_attr or not sem_attr:
-        raise AnalysisError("cannot find the attributes holding the target / the semaphore")
-    locks = {f"self.{sem_attr}"}
-    target = f"self.{target_attr}"
-
-    methods = {name: f for name, f in tfr.methods.items()}
-    # which TFR methods invoke one of their parameters (bound target methods)
-    invokes_param = {}
-    for name, f in methods.items():
-        ps = {a.arg for a in f.args.args[1:]}
-        for c in walk_shallow(f, include_self=False):
-            if isinstance(c, ast.Call) and isinstance(c.func, ast.Name) and c.func.id in ps:
-                idx = [a.arg for a in f.args.args].index(c.func.id) - 1
-                invokes_param[name] = (c.func.id, idx)
-
-    # -- R-LOCK-PAIR ------------------------------------------------------------------
-    explorations = {}
-    for name, f in sorted(methods.items()):
-        lr = lock_receivers(f)
-        cfg = cfg_of(ctx, f)
-        exp, errors = lock_typestate(cfg, locks)
-        explorations[name] = (cfg, exp)
-        ctx.stats["states"] += exp.size
-        if not (lr & locks):
-            # a method that never touches the lock must also not release it
-            continue
-        bad = None
-        msg = ""
-        if errors:
-            bad, msg = errors[0]
-        else:
-            for ex in cfg.exits:
-                if "H" in exp.states_at(ex):
-                    bad = (ex, "H")
-                    kind = "returns" if ex == cfg.exit_return else "raises"
-                    msg = f"a path {kind} out of {name}() with the semaphore still held"
-                    break
-        ctx.check(
-            "R-LOCK-PAIR",
-            f"{TFR}.{name}",
-            f,
-            bad is None,
-            msg,
-            examined=exp.size,
-            path=exp.describe(bad) if bad else None,
-            construct=f"{REAL}:{TFR}.{name}::lock-pairing",
-        )
+    ENTRY = [("startTestRun", {}, "startTestRun"), ("stopTestRun", {}, "stopTestRun"), ("stop", {}, "stop"), ("done", {}, "done"), ("_get_shouldStop", {}, "shouldStop:read")]
+    for m in tm.OUTCOMES:
+        f_ = methods.get(m)
+        if f_ is None:
+            raise AnalysisError(f"anchor vanished: {TFR}.{m}")
+        params = [a_.arg for a_ in f_.args.args][1:]
+        argv = {"test": tm.T_}
+        for p_ in params[1:]:
+            argv[p_] = ("arg", p_) if p_ != "details" else ("arg", "details")
+        if "err" in argv and "details" in argv:
+            argv["err"] = "None"
+        if "reason" in argv and "details" in argv:
+            argv["reason"] = "None"
+        ENTRY.append((m, argv, m))
+    n_target_uses = 0
+    for m, argv, forwards in ENTRY:
+        f_, res = tm.run_method(ctx, m, argv)
+        pair, under, nested = set(), set(), set()
+        forwarded = False
+        for r in res:
+            log = effects.calls(r)
+            n_target_uses = max(n_target_uses, 0)
+            for pr in tm.lock_problems(log):
+                (nested if "acquired again" in pr else under if "not held" in pr and "target" in pr else pair).add(pr)
+            if r.kind == "val" and any(e[0] == "t." + forwards and e[3] == "ok" for e in log):
+                forwarded = True
+        where = f"{TFR}.{m}"
+        ctx.check("R-LOCK-PAIR", where, f_, not pair and bool(res), "; ".join(sorted(pair)) or "no path explored", examined=len(res), construct=f"{REAL}:{where}::lock-pair")
+        ctx.check("R-TARGET-UNDER-LOCK", f"{where}: every use of the target happens while the semaphore is held, and the call is forwarded", f_, not under and forwarded,
+                  "; ".join(sorted(under)) or f"no normal path forwards {forwards} to the target", examined=len(res), construct=f"{REAL}:{where}::under-lock")
+        ctx.check("R-NO-NESTED-ACQUIRE", f"{where}: the semaphore is never acquired while held", f_, not nested, "; ".join(sorted(nested)), construct=f"{REAL}:{where}::nested")
     ctx.floor("R-LOCK-PAIR", 6, "methods that take the semaphore")
+    ctx.floor("R-TARGET-UNDER-LOCK", 11, "entry points")
 
-    # -- R-TARGET-UNDER-LOCK -----------------------------------------------------------
-    def entry_states(name, astnode):
-        cfg, exp = explorations[name]
-        live = live_nodes(cfg)
-        sts = set()
-        found = False
-        for nid in cfg.nodes_for(astnode):
-            if nid in live:
-                found = True
-                sts |= exp.states_at(nid)
-        return sts if found else None
-
-    exempt_reads = {"wasSuccessful": "read-only delegation; not one of the guarded operations of the property"}
-    n_access = 0
-    for name, f in sorted(methods.items()):
-        if name == "__init__" or name == "__repr__":
-            continue
-        for n in walk_shallow(f, include_self=False):
-            if not isinstance(n, ast.Attribute):
-                continue
-            ch = attr_chain(n)
-            if not ch or ch[:2] != ["self", target_attr] or len(ch) != 3:
-                continue
-            if not isinstance(n.ctx, ast.Load):
-                continue
-            parent = getattr(n, "_parent", None)
-            # bound method handed to a helper that invokes it under the lock
-            if isinstance(parent, ast.Call) and n in parent.args:
-                callee = attr_chain(parent.func)
-                if callee and callee[0] == "self" and len(callee) == 2 and callee[1] in invokes_param:
-                    pname, idx = invokes_param[callee[1]]
-                    if parent.args.index(n) == idx:
-                        n_access += 1
-                        ctx.check(
-                            "R-TARGET-UNDER-LOCK",
-                            f"{TFR}.{name}: {norm(n)} handed to {callee[1]}()",
-                            n,
-                            True,
-                            examined=1,
-                        )
-                        continue
-            if name in exempt_reads:
-                ctx.note(f"R-TARGET-UNDER-LOCK frozen exception: {TFR}.{name} ({exempt_reads[name]})")
-                continue
-            sts = entry_states(name, n)
-            ok = sts is not None and sts == {"H"}
-            n_access += 1
-            ctx.check(
-                "R-TARGET-UNDER-LOCK",
-                f"{TFR}.{name}: {norm(n)}",
-                n,
-                ok,
-                f"target access {norm(n)} can execute while the semaphore is not held (states {sorted(sts or [])})",
-                examined=len(sts or ()),
-            )
-    # the parameter invoked on behalf of callers must be invoked under the lock
-    for name, (pname, idx) in sorted(invokes_param.items()):
-        f = methods[name]
-        for c in walk_shallow(f, include_self=False):
-            if isinstance(c, ast.Call) and isinstance(c.func, ast.Name) and c.func.id == pname:
-                sts = entry_states(name, c)
-                ctx.check(
-                    "R-TARGET-UNDER-LOCK",
-                    f"{TFR}.{name}: {pname}(...) [bound target method]",
-                    c,
-                    sts == {"H"},
-                    f"the target method passed in as {pname!r} can be invoked without the semaphore (states {sorted(sts or [])})",
-                    examined=len(sts or ()),
-                )
-    ctx.floor("R-TARGET-UNDER-LOCK", 18, "target accesses")
-
-    # -- R-NO-NESTED-ACQUIRE -------------------------------------------------------------
-    acquirers = set()
-    mro = [c for c in classes.mro(tfr) if not c.external]
-    all_methods = {}
-    for c in reversed(mro):
-        for mname, mf in c.methods.items():
-            all_methods[mname] = mf
-    prop_getters = {}
-    for c in reversed(mro):
-        for pname, (g, s) in c.properties.items():
-            if isinstance(g, ast.Name):
-                prop_getters[pname] = g.id
-            elif isinstance(g, FUNC_TYPES):
-                prop_getters[pname] = g.name
-    for mname, mf in all_methods.items():
-        if lock_receivers(mf) & locks:
-            acquirers.add(mname)
-    changed = True
-    while changed:
-        changed = False
-        for mname, mf in all_methods.items():
-            if mname in acquirers:
-                continue
-            for c in walk_shallow(mf, include_self=False):
-                if isinstance(c, ast.Call):
-                    ch = attr_chain(c.func)
-                    if ch and ch[0] in ("self", "super()") and len(ch) == 2 and ch[1] in acquirers:
-                        acquirers.add(mname)
-                        changed = True
-    acquiring_props = {p for p, g in prop_getters.items() if g in acquirers}
-    held_sites = 0
-    for name, f in sorted(methods.items()):
-        cfg, exp = explorations[name]
-        live = live_nodes(cfg)
-        for node in cfg.nodes:
-            if node.id not in live or "H" not in exp.states_at(node.id):
-                continue
-            ops = _node_lock_ops(node, locks)
-            if any(o == "acquire" for o, _ in ops) and exp.states_at(node.id) == {"U"}:
-                continue
-            for e in node_exprs(node):
-                for sub in walk_shallow(e):
-                    bad = None
-                    if isinstance(sub, ast.Call):
-                        ch = attr_chain(sub.func)
-                        if ch and ch[0] in ("self", "super()") and len(ch) == 2:
-                            held_sites += 1
-                            if ch[1] in acquirers:
-                                bad = f"{norm(sub.func)}() acquires the semaphore and is called while it is held (deadlock on a non-reentrant semaphore)"
-                            ctx.check("R-NO-NESTED-ACQUIRE", f"{TFR}.{name}: {norm(sub.func)}()", sub, bad is None, bad or "")
-                    elif isinstance(sub, ast.Attribute) and isinstance(sub.ctx, ast.Load):
-                        ch = attr_chain(sub)
-                        if ch and ch[0] == "self" and len(ch) == 2 and ch[1] in acquiring_props:
-                            ctx.check(
-                                "R-NO-NESTED-ACQUIRE",
-                                f"{TFR}.{name}: read of property {ch[1]}",
-                                sub,
-                                False,
-                                f"property {ch[1]} acquires the semaphore and is read while it is held",
-                            )
-    ctx.check(
-        "R-NO-NESTED-ACQUIRE",
-        f"{TFR}: acquiring methods = {sorted(acquirers)}",
-        tfr.node,
-        len(acquirers) >= 6,
-        "fewer acquiring methods than confirmed by hand",
-        examined=len(acquirers),
-        construct=f"{REAL}:{TFR}::acquirers",
-    )
-
-    # -- R-BLOCK-ORDER ---------------------------------------------------------------------
-    if len(invokes_param) != 1:
-        raise AnalysisError(f"expected exactly one helper invoking a bound target method, found {sorted(invokes_param)}")
-    helper_name = next(iter(invokes_param))
-    helper = methods[helper_name]
-    pname, _ = invokes_param[helper_name]
-    cfg, exp = explorations[helper_name]
-    live = live_nodes(cfg)
-
-    def tcall(method, argpred=None):
-        def pred(c):
-            ch = attr_chain(c.func)
-            if not (ch and ch == ["self", target_attr, method]):
-                return False
-            return argpred is None or argpred(c)
-        return pred
-
-    test_param = helper.args.args[2].arg if len(helper.args.args) > 2 else "test"
-    now_locals = set()
-    for n in walk_shallow(helper, include_self=False):
-        if isinstance(n, ast.Assign) and isinstance(n.value, ast.Call) and dotted(n.value.func) == "self._now":
-            for t in n.targets:
-                if isinstance(t, ast.Name):
-                    now_locals.add(t.id)
-    T1 = nodes_calling(cfg, tcall("time", lambda c: c.args and dotted(c.args[0]) == "self._test_start"), live)
-    S = nodes_calling(cfg, tcall("startTest", lambda c: c.args and dotted(c.args[0]) == test_param), live)
-    T2 = nodes_calling(cfg, tcall("time", lambda c: c.args and isinstance(c.args[0], ast.Name) and c.args[0].id in now_locals), live)
-    GG = nodes_calling(cfg, tcall("tags", lambda c: c.args and isinstance(c.args[0], ast.Starred) and dotted(c.args[0].value) == "self._global_tags"), live)
-    GT = nodes_calling(cfg, tcall("tags", lambda c: c.args and isinstance(c.args[0], ast.Starred) and dotted(c.args[0].value) == "self._test_tags"), live)
-
-    def is_method_call(c):
-        return isinstance(c.func, ast.Name) and c.func.id == pname
-
-    M = nodes_calling(cfg, is_method_call, live)
-    E = nodes_calling(cfg, tcall("stopTest", lambda c: c.args and dotted(c.args[0]) == test_param), live)
-    REL = [n.id for n in cfg.nodes if n.id in live and any(o == "release" for o, _ in _node_lock_ops(n, locks))]
-
-    def order(name_, ok, msg, node=None, path=None):
-        ctx.check("R-BLOCK-ORDER", f"{TFR}.{helper_name}: {name_}", node or helper, ok, msg, path=path,
-                  construct=f"{REAL}:{TFR}.{helper_name}::{name_}")
-
-    order("start-time call present", len(T1) == 1, "expected exactly one self.result.time(self._test_start)")
-    order("startTest call present", len(S) == 1, "expected exactly one self.result.startTest(test)")
-    order("end-time call present", len(T2) == 1, "expected exactly one self.result.time(<local taken from self._now()>)")
-    order("outcome call present", len(M) == 1, f"expected exactly one {pname}(test, ...)")
-    order("stopTest present", len(E) >= 1, "expected self.result.stopTest(test)")
-    order("global and test tags replayed", len(GG) == 1 and len(GT) == 1, "expected tags(*self._global_tags) and tags(*self._test_tags)")
-    if T1 and S and T2 and M and E and GG and GT:
-        order("start time before startTest", cfg.dominated_by(S[0], set(T1)), "startTest is reachable without the start time having been sent")
-        order("startTest before end time", cfg.dominated_by(T2[0], set(S)), "end time can be sent before startTest")
-        order("end time before tags", all(cfg.dominated_by(g, set(T2)) for g in GG + GT), "tags can be sent before the end time")
-        order("global tags before test tags", not (set(cfg.reach(cfg.after(GT[0]))) & set(GG)), "global tags can follow the test's own tags")
-        order("tags before outcome", not (set(cfg.reach(cfg.after(M[0], exclude=()))) & set(GG + GT)), "tags can be sent after the outcome")
-        order("startTest/end time before outcome", cfg.dominated_by(M[0], set(S)) and cfg.dominated_by(M[0], set(T2)), "outcome reachable without startTest / end time")
-        esc = cfg.escape_path(cfg.after(M[0], exclude=()), set(E))
-        order("stopTest on every path out of the outcome", esc is None, "a path leaves the outcome call (normally or exceptionally) without stopTest", path=cfg.describe_path(esc) if esc else None)
-        order("stopTest only after the outcome", all(cfg.dominated_by(e, set(M)) for e in E), "stopTest reachable without the outcome call")
-        order("stopTest before release", all(not (set(cfg.reach(cfg.after(r, exclude=()))) & set(E)) for r in REL), "stopTest can run after the semaphore was released")
-        # outcome call passes the test and the caller's arguments through
-        mcall = [c for c in node_calls(cfg.nodes[M[0]]) if is_method_call(c)][0]
-        va = helper.args.vararg.arg if helper.args.vararg else None
-        kw = helper.args.kwarg.arg if helper.args.kwarg else None
-        ok_args = (
-            mcall.args
-            and dotted(mcall.args[0]) == test_param
-            and any(isinstance(a, ast.Starred) and dotted(a.value) == va for a in mcall.args)
-            and any(k.arg is None and dotted(k.value) == kw for k in mcall.keywords)
-        )
-        order("outcome receives test, *args, **kwargs", bool(ok_args), f"{norm(mcall)} does not pass test, *{va}, **{kw}", node=mcall)
-    # per-test tag buffer cleared inside the held region, after it was replayed; global kept
-    clear_nodes = []
-    global_writes = []
-    for n in cfg.nodes:
-        if n.id not in live or n.kind != "stmt" or not isinstance(n.ast, ast.Assign):
-            continue
-        for t in n.ast.targets:
-            d = dotted(t)
-            if d == "self._test_tags":
-                clear_nodes.append(n.id)
-            if d == "self._global_tags":
-                global_writes.append(n.id)
-    acq = [n.id for n in cfg.nodes if n.id in live and any(o == "acquire" for o, _ in _node_lock_ops(n, locks))]
-    if acq:
-        esc = cfg.escape_path(cfg.after(acq[0]), set(clear_nodes), targets=[cfg.exit_return])
-        order("per-test tag buffer cleared", bool(clear_nodes) and esc is None, "a normal path through the block leaves the per-test tag buffer uncleared (tags would leak into the next test)", path=cfg.describe_path(esc) if esc else None)
-        if clear_nodes and GT:
-            order("buffer cleared only after it was replayed", not (set(cfg.reach(cfg.after(clear_nodes[0]))) & set(GT)), "the per-test tag buffer is cleared before it is sent")
-            a = Aliases(helper)
-            fresh = all(a.of(cfg.nodes[c].ast.value) <= {("fresh",)} for c in clear_nodes)
-            order("buffer reset to fresh sets", fresh, "per-test tag buffer reset to a shared / non-fresh object")
-        order("clear happens while held", all(exp.states_at(c) == {"H"} for c in clear_nodes), "per-test tag buffer cleared outside the held region")
-    order("global tag buffer survives the block", not global_writes, "the block overwrites the run-level tag buffer")
-    # startTest records the start time and does not touch the target
-    st = methods.get("startTest")
-    if st is None:
-        raise AnalysisError("anchor vanished: ThreadsafeForwardingResult.startTest")
-    rec = [n for n in walk_shallow(st, include_self=False) if isinstance(n, ast.Assign) and any(dotted(t) == "self._test_start" for t in n.targets) and isinstance(n.value, ast.Call) and dotted(n.value.func) == "self._now"]
-    ctx.check("R-BLOCK-ORDER", f"{TFR}.startTest records the test's own start time", st, len(rec) == 1, "startTest no longer stores self._now() in self._test_start",
-              construct=f"{REAL}:{TFR}.startTest::records-start")
-    reset = [n for n in walk_shallow(helper, include_self=False) if isinstance(n, ast.Assign) and any(dotted(t) == "self._test_start" for t in n.targets) and isinstance(n.value, ast.Constant) and n.value.value is None]
-    ctx.check("R-BLOCK-ORDER", f"{TFR}.{helper_name} resets the start time", helper, len(reset) >= 1, "the start time is not reset after the block (tags() would keep routing to the per-test buffer)",
-              construct=f"{REAL}:{TFR}.{helper_name}::resets-start")
+    # the per-test block: start time, startTest, end time, run-level tags, test tags, outcome, stopTest
+    for m, argv, _ in ENTRY[5:]:
+        f_, res = tm.run_method(ctx, m, argv)
+        problems = set()
+        n_normal = 0
+        for r in res:
+            calls_ = tm.target_calls(effects.calls(r))
+            names = [c_[0] for c_ in calls_]
+            want_prefix = ["time", "startTest", "time"]
+            body = [x for x in names[3:] if x != "tags"]
+            tags = [c_ for c_ in calls_[3:] if c_[0] == "tags"]
+            if r.kind == "val":
+                n_normal += 1
+                if names[:3] != want_prefix or body != [m, "stopTest"] or len(tags) > 2:
+                    problems.add(f"the block sent to the target is {names}; documented: time, startTest, time, [tags], [tags], {m}, stopTest")
+                    continue
+                if calls_[0][1] != (tm.START,) or calls_[2][1] != (tm.NOW,):
+                    problems.add("the first time() is not the test's own start time or the second not the time of the outcome")
+                if calls_[1][1] != (tm.T_,) or calls_[-1][1] != (tm.T_,):
+                    problems.add("startTest / stopTest do not carry the test")
+                ti = [i for i, c_ in enumerate(calls_) if c_[0] == "tags"]
+                if any(i > names.index(m) for i in ti):
+                    problems.add("tags are sent after the outcome")
+                tag_args = [c_[1] for c_ in tags]
+                if any(a_ not in ((tm.G_NEW, tm.G_GONE), (tm.L_NEW, tm.L_GONE)) for a_ in tag_args) or (len(tag_args) == 2 and tag_args != [(tm.G_NEW, tm.G_GONE), (tm.L_NEW, tm.L_GONE)]):
+                    problems.add(f"tags replayed as {tag_args}: expected the run-level buffer, then the test's own buffer, unmerged")
+                oc = calls_[names.index(m)]
+                if not oc[1] or oc[1][0] != tm.T_:
+                    problems.add("the outcome does not receive the test first")
+                given = [v for k_, v in argv.items() if k_ != "test" and v != "None"]
+                got_vals = list(oc[1][1:]) + [v for _, v in oc[2]]
+                if any(v not in got_vals for v in given):
+                    problems.add("an argument of the outcome is not passed on to the target")
+                if r.state.get("self._test_tags") != ("tuple", ("set", ("empty",)), ("set", ("empty",))):
+                    problems.add("the per-test tag buffer is not reset to fresh empty sets (tags would leak into the next test)")
+                if r.state.get("self._global_tags") != ("tuple", tm.G_NEW, tm.G_GONE):
+                    problems.add("the block overwrites the run-level tag buffer")
+                if r.state.get("self._test_start") != A_NONE:
+                    problems.add("the start time is not reset after the block")
+            else:
+                # a target call raised: what was sent is a prefix of the block, and once the outcome was attempted stopTest is too
+                if m in names and "stopTest" not in names[names.index(m):]:
+                    problems.add("when the outcome call raises, stopTest is not sent (the target keeps a test open)")
+                if "stopTest" in names and m not in names:
+                    problems.add("stopTest is sent although the outcome was never attempted")
+        if n_normal == 0:
+            problems.add("no normal path")
+        ctx.check("R-BLOCK-ORDER", f"{TFR}.{m}: block = start time, startTest, end time, tags, outcome, stopTest (also when the target raises)", f_, not problems,
+                  "; ".join(sorted(problems)), examined=len(res), construct=f"{REAL}:{TFR}.{m}::block")
+    f_, res = tm.run_method(ctx, "startTest", {"test": tm.T_}, st=tm.initial_state(open_test=False))
+    ok = bool(res) and all(r.kind == "val" and r.state.get("self._test_start") == tm.NOW and not tm.target_calls(effects.calls(r)) for r in res)
+    ctx.check("R-BLOCK-ORDER", f"{TFR}.startTest records the test's own start time and does not touch the target", f_, ok,
+              "startTest does not store self._now() as the test's start time, or talks to the shared target outside a block", construct=f"{REAL}:{TFR}.startTest::start-time")
 
     # -- R-NO-SHARED-STATE ---------------------------------------------------------------------
     for name, f in sorted(methods.items()):
